@@ -177,7 +177,7 @@ pub fn run(tier: &Tier, _args: &[String]) -> i32 {
     out.assumptions = vec![
         "user configuration: alice (admin), bob (readonly), carol (role without login), Dave (readwrite), two users whose names coincide after NFKC normalisation ('\u{fb01}ona' readonly, 'fiona' admin), 'zo\u{e9}' (readonly); system users operator (admin) and viewer (readonly); admin token 'secret'".into(),
         "a password matches if it equals the configured one after the trimming and NFKC normalisation that the hash generator (krillc config user) itself applies; user names must match the configured name exactly".into(),
-        "token mutations: every truncation, every single-bit flip of the decoded bytes, every character replaced by each of 6 characters, a menu of re-encodings, and a token issued by a second instance with its own key; 'arbitrary strings' are a menu, not all strings".into(),
+        "token mutations: every truncation, every single-bit flip of the decoded bytes, every character replaced by each of 6 characters, a menu of re-encodings, every splice of the two valid tokens (head of one, tail of the other, at every character and byte position; thorough: every adjacent byte swap and byte removal), and a token issued by a second instance with its own key; 'arbitrary strings' are a menu, not all strings".into(),
         "transports: the TCP path (no peer user) and the Unix-socket path (peer user in the request extensions, as the socket listener sets it); OpenID Connect is not exercised (needs an external provider)".into(),
     ];
     let root = crate::e1run::scratch_root();
@@ -319,6 +319,33 @@ pub fn run(tier: &Tier, _args: &[String]) -> i32 {
                 ("basic-b64", STANDARD.encode("alice:alice-pw")),
             ] {
                 muts.push((format!("{tname}:{name}"), m.into_bytes()));
+            }
+        }
+        // spliced tokens: head of one valid token, tail of the other, at
+        // every split point (characters and decoded bytes), both orders
+        for (n1, t1, n2, t2) in [("alice", &ta, "bob", &tb), ("bob", &tb, "alice", &ta)] {
+            for i in 1..t1.len().min(t2.len()) {
+                let m = [&t1.as_bytes()[..i], &t2.as_bytes()[i..]].concat();
+                muts.push((format!("{n1}+{n2}:splice-chars:{i}"), m));
+            }
+            let r1 = STANDARD.decode(t1.as_bytes()).unwrap_or_default();
+            let r2 = STANDARD.decode(t2.as_bytes()).unwrap_or_default();
+            for i in 1..r1.len().min(r2.len()) {
+                let m = [&r1[..i], &r2[i..]].concat();
+                muts.push((format!("{n1}+{n2}:splice-bytes:{i}"), STANDARD.encode(&m).into_bytes()));
+            }
+            if thorough {
+                // every adjacent byte pair swapped, every byte removed
+                for i in 0..r1.len().saturating_sub(1) {
+                    let mut m = r1.clone();
+                    m.swap(i, i + 1);
+                    if m != r1 {
+                        muts.push((format!("{n1}:swap-bytes:{i}"), STANDARD.encode(&m).into_bytes()));
+                    }
+                    let mut m = r1.clone();
+                    m.remove(i);
+                    muts.push((format!("{n1}:remove-byte:{i}"), STANDARD.encode(&m).into_bytes()));
+                }
             }
         }
         // admin token variants
